@@ -10,6 +10,7 @@
     the raw parts and the shared length as they were at that moment.
     Definitions only. *)
 From Brood Require Export World Multi.
+From Brood Require Export Facts.
 
 Inductive cell := Owned (v : val) | Stale (v : val).
 
@@ -103,10 +104,15 @@ Fixpoint clear_cols (comps : list nat) (len : nat) (cols : list (list cell)) (f 
   | _, _ => (cols, [], false)
   end.
 
-(** [Archetype::clear]: the shared length becomes 0 only at the very end. *)
-Definition p_clear (a : parch) (f : fault) : parch * list pevent * bool :=
+(** [Archetype::clear] / [clear_detached].  Whether the shared length is set to 0 BEFORE the components
+    are dropped (then an unwound clear leaves an empty archetype whose remaining values are leaked) or
+    only at the very end (then an unwound clear leaves the old length over columns already emptied) is
+    read off the source: [fact_clear_sets_length_first] (Gen/Facts.v). *)
+Definition p_clear_gen (len_first : bool) (a : parch) (f : fault) : parch * list pevent * bool :=
   let '(cols, evs, unwound) := clear_cols (bits_on (pa_shape a)) (pa_len a) (pa_cols a) f in
-  (mkPArch (pa_shape a) cols (if unwound then pa_len a else 0), evs, unwound).
+  (mkPArch (pa_shape a) cols (if unwound && negb len_first then pa_len a else 0), evs, unwound).
+Definition p_clear (a : parch) (f : fault) : parch * list pevent * bool :=
+  p_clear_gen fact_clear_sets_length_first a f.
 
 (** [set_component_unchecked]: [*slot = value] is drop-and-replace: if the old value's Drop
     panics the new value is still written on the unwind path. *)
